@@ -354,6 +354,27 @@ func runC11(c *Ctx) {
 					if cm.Value == v {
 						continue // called as a function value
 					}
+					// a method expression of the agent's interface (agent.ExtendedAgent.Lock) handed in as a function value
+					// and called with the agent as its receiver: an invocation on the spot
+					if p, isP := cm.Value.(*ssa.Parameter); isP && len(cm.Args) > 0 && cm.Args[0] == v {
+						sites := w.callSites(p.Parent())
+						allThunks := len(sites) > 0
+						for _, site := range sites {
+							a := site.Common().Args
+							if paramIndex(p) >= len(a) {
+								allThunks = false
+								break
+							}
+							tf, isF := strip(a[paramIndex(p)]).(*ssa.Function)
+							if !isF || !strings.HasSuffix(tf.Name(), "$thunk") || tf.Signature.Params().Len() == 0 || !types.IsInterface(tf.Signature.Params().At(0).Type()) {
+								allThunks = false
+							}
+						}
+						if allThunks {
+							nUse++
+							continue
+						}
+					}
 					nBad++
 					c.Bad("R1.lockset", shortFn(fn)+"|underlying agent handed to "+shortName(calleeName(u)), w.Pos(u.Pos()), "the underlying agent's value leaves the server (argument of a call outside the repository): it can be used without the mutex")
 				case *ssa.TypeAssert, *ssa.ChangeInterface, *ssa.ChangeType, *ssa.Extract, *ssa.Phi:
